@@ -150,6 +150,19 @@ func TestVerifC12(t *testing.T) {
 						}
 						return fail("partial-state-after-crash", fmt.Sprintf("reopened wallet is neither complete nor untouched as required (expected %s): %s [other candidate: %s]", want.key(), e, other.key()))
 					}
+					// passphrase behaviour is part of the state: the expected private passphrase unlocks every keystore
+					if len(want.Ks) > 0 {
+						if err := in.km.Unlock([]byte(wPass[want.Priv])); err != nil {
+							return fail("partial-state-after-crash", fmt.Sprintf("after the crash the wallet does not unlock with the private passphrase of the expected state (%s): %v", want.key(), err))
+						}
+						if !wAllUnlocked(in) {
+							return fail("partial-state-after-crash", "after the crash not every keystore unlocks")
+						}
+						mm.Unlocked = true
+						if cl, _, msg := wSignAll(c, in, &mm, false); msg != "" {
+							return fail("partial-state-after-crash", cl+": "+msg)
+						}
+					}
 					in.close()
 					continue
 				}
